@@ -65,8 +65,12 @@ Qed.
 
 Lemma do_filter_good C md esc f v args r : do_filter md esc f v args = Ok r -> vgood C v -> Forall (vgood C) args -> vgood C r.
 Proof.
+  (* robust against new filters: every branch returns a scalar, the operand, an argument, an element of
+     the operand, or a list of strings *)
   assert (Hlast : forall l, Forall (vgood C) l -> vgood C (match rev l with x :: _ => x | [] => VUndef end)).
   { intros l Hl. destruct (rev l) eqn:Er; [exact I|]. rewrite Forall_forall in Hl. apply Hl, in_rev. rewrite Er. left. reflexivity. }
+  assert (Hchars : forall s : list Z, vgood C (VList (map (fun ch => VStr false [ch]) s))).
+  { intros s. apply vgood_list, Forall_forall. intros x Hx. apply in_map_iff in Hx as (ch & <- & _). exact I. }
   unfold do_filter, bind, u_not_undef. intros H Hv Ha.
   repeat match type of H with
          | context [if (f =? ?k) then _ else _] => destruct (f =? k)
@@ -75,11 +79,15 @@ Proof.
   destruct v; try discriminate;
   repeat match type of H with
          | context [if ?a then _ else _] => destruct a; try discriminate
-         | context [match ?a with _ => _ end] => is_var a; destruct a; try discriminate
+         | context [match ?a with _ => _ end] =>
+             lazymatch a with
+             | rev _ => fail
+             | _ => destruct a; try discriminate
+             end
          end;
   try discriminate;
   inversion H; subst; clear H;
-  first [ exact I | exact Hv | (apply Hlast; apply vgood_list; exact Hv)
+  first [ exact I | exact Hv | (apply Hlast; apply vgood_list; exact Hv) | apply Hchars
         | (apply vgood_list in Hv; inversion Hv; assumption)
         | (inversion Ha; assumption) ].
 Qed.
